@@ -249,6 +249,7 @@ func genItemSubst(g *simrt.Tape) ItemSubst {
 		it.OtherOp = g.Draw(len(opCases) - 1)
 	case 2:
 		it.Op = "unknown"
+		it.OtherOp = g.Draw(6)
 	case 3:
 		it.Op = "absent"
 	}
@@ -342,7 +343,9 @@ func c12Floor(tier string) []*C12Sc {
 		{Items: []ItemSubst{{Payload: "opaque"}}},
 		{Items: []ItemSubst{{Op: "other", OtherOp: 10}}},
 		{Items: []ItemSubst{{Op: "other", OtherOp: 0, Payload: "other", PayloadOp: 0}}},
-		{Items: []ItemSubst{{Op: "unknown"}}},
+		{Items: []ItemSubst{{Op: "unknown"}}}, {Items: []ItemSubst{{Op: "unknown", OtherOp: 1}}}, {Items: []ItemSubst{{Op: "unknown", OtherOp: 2}}},
+		{Items: []ItemSubst{{Op: "unknown", OtherOp: 3}}}, {Items: []ItemSubst{{Op: "unknown", OtherOp: 4}}}, {Items: []ItemSubst{{Op: "unknown", OtherOp: 5}}},
+		{Items: []ItemSubst{{Op: "unknown", OtherOp: 1, Payload: "opaque"}}}, {Items: []ItemSubst{{Op: "unknown", OtherOp: 1, Payload: "absent"}}},
 		{Items: []ItemSubst{{Op: "absent"}}},
 		{Items: []ItemSubst{{Op: "absent", Payload: "absent"}}},
 		{Items: []ItemSubst{{Status: 1, Reason: 1, Message: true}}},
@@ -516,7 +519,9 @@ func buildResponseWith(req *kmip.RequestMessage, sb *RespSubst, sent *[]c12Sent,
 		case "other":
 			ri.Operation = opCases[it.OtherOp%len(opCases)].op
 		case "unknown":
-			ri.Operation = kmip.Operation(0x7E)
+			// codes the library has never heard of: just past the last registered one, in the gap, the largest
+			// standard value, a vendor extension
+			ri.Operation = []kmip.Operation{0x7E, 0x2C, 0x2D, 0x7FFFFFFF, 0x80000001, 0x10}[it.OtherOp%6]
 		case "absent":
 			ri.Operation = 0
 		}
